@@ -43,7 +43,7 @@ package server
 //@ spec validShape(req *request.CreateRequest) bool = (len(req.CollectionInfos) == 1 && len(req.DBCollections) == 0) || (len(req.CollectionInfos) == 0 && len(req.DBCollections) == 1)
 
 //@ func (*MetaCDC).validCreateRequest
-//@   props C19
+//@   props C19 C18
 //@   requires e != nil && e.config != nil && req != nil
 //@   ensures [accepted-requests-name-exactly-one-well-formed-target] err == nil ==> old(validTargets(req))
 //@   ensures [accepted-requests-have-non-negative-limits] err == nil ==> old(validLimits(req))
@@ -79,6 +79,9 @@ package server
 //@ trusted func (net/http.Header).Set
 //@   modifies maps(string;[]string), fresh([]string)
 
+// responses are values of the response types: never a request, a connect parameter or a task record
+//@ spec isResponseValue(v any) bool = !isType(v, "*request.CreateRequest") && !isType(v, "model.MilvusConnectParam") && !isType(v, "model.KafkaConnectParam") && !isType(v, "*meta.TaskInfo")
+
 //@ func (*CDCServer).handleError
 //@   props C19
 //@   requires c != nil
@@ -87,13 +90,17 @@ package server
 //@   panics never
 
 //@ func (*CDCServer).handleRequest
-//@   props C19
+//@   props C19 C18
 //@   requires c != nil && cdcRequest != nil
 //@   dyncall modifies * except respCount lastRespCode
 // the eight entries of requestHandlers return the CDCService result: a non-nil response exactly when there is no error
 //@   dyncall results 2 ensures result1 == nil ==> result0 != nil
+//@   dyncall results 2 ensures isResponseValue(result0)
+// generateModel returns a new request model of the handler's type, never the envelope
+//@   dyncall results 1 ensures !isType(result0, "*request.CDCRequest") && !isType(result0, "request.CDCRequest")
 //@   ensures [no-response-value-means-one-error-document] result == nil ==> respCount == old(respCount) + 1 && (lastRespCode == 400 || lastRespCode == 500)
 //@   ensures [a-response-value-means-nothing-written-yet] result != nil ==> respCount == old(respCount)
+//@   ensures [the-result-is-a-response-value] isResponseValue(result)
 //@   modifies *
 
 //@ func (*CDCServer).getCDCHandler$1
@@ -114,8 +121,51 @@ package server
 // maskedReq: no credential of a create request is present
 //@ spec maskedReq(r *request.CreateRequest) bool = r.MilvusConnectParam.Password == "" && r.MilvusConnectParam.Token == "" && r.KafkaConnectParam.SASL.Password == "" && r.KafkaConnectParam.SASL.Username == ""
 
+// the envelope (*CDCRequest) carries the raw, unmasked request data: it is never what gets logged
 //@ func GetRequestInfo
 //@   props C18 C19
+//@   requires [the-raw-request-envelope-is-never-logged] !isType(request, "*request.CDCRequest") && !isType(request, "request.CDCRequest")
 //@   ensures [create-requests-are-logged-masked] isType(lastMarshalled, "*request.CreateRequest") ==> maskedReq(cast(lastMarshalled, "*request.CreateRequest"))
 //@   ensures [the-callers-request-is-not-modified] isType(request, "*request.CreateRequest") ==> cast(request, "*request.CreateRequest").MilvusConnectParam == old(cast(request, "*request.CreateRequest").MilvusConnectParam)
 //@   modifies lastMarshalled, fresh(request.CreateRequest.*)
+
+// get / list answer with masked tasks only
+//@ func (*MetaCDC).Get
+//@   props C18
+//@   requires e != nil && req != nil && e.metaStoreFactory != nil
+//@   ensures [get-response-carries-no-credential] result1 == nil ==> result0 != nil && maskedTask(result0.Task)
+
+//@ func (*MetaCDC).List$1
+//@   props C18
+//@   requires t != nil
+//@   ensures [no-credential-in-a-listed-task] maskedTask(result)
+//@   modifies t.MilvusConnectParam, t.KafkaConnectParam
+
+//@ func (*MetaCDC).List
+//@   props C18
+//@   requires e != nil && e.metaStoreFactory != nil
+//@   ensures [list-response-carries-no-credential] result1 == nil ==> result0 != nil && (forall i int :: 0 <= i && i < len(result0.Tasks) ==> maskedTask(result0.Tasks[i]))
+
+// ---- C18: values handed to the logger ------------------------------------------------------------------------
+// zap.Any serialises the whole value into the log line: a request, a connect parameter or a task record may
+// only be handed to it with every credential field empty
+//@ spec maskedMilvus(p model.MilvusConnectParam) bool = p.Password == "" && p.Token == ""
+//@ spec maskedKafka(p model.KafkaConnectParam) bool = p.SASL.Password == "" && p.SASL.Username == ""
+//@ trusted func go.uber.org/zap.Any
+//@   params key value
+//@   requires [no-create-request-with-credentials-reaches-the-log] isType(value, "*request.CreateRequest") ==> maskedReq(cast(value, "*request.CreateRequest"))
+//@   requires [no-milvus-credential-reaches-the-log] isType(value, "model.MilvusConnectParam") ==> maskedMilvus(cast(value, "model.MilvusConnectParam"))
+//@   requires [no-kafka-credential-reaches-the-log] isType(value, "model.KafkaConnectParam") ==> maskedKafka(cast(value, "model.KafkaConnectParam"))
+//@   requires [no-task-record-with-credentials-reaches-the-log] isType(value, "*meta.TaskInfo") ==> maskedMilvus(cast(value, "*meta.TaskInfo").MilvusConnectParam) && maskedKafka(cast(value, "*meta.TaskInfo").KafkaConnectParam)
+//@   modifies nothing
+
+// the deferred log statement of Create
+//@ func (*MetaCDC).Create$1
+//@   props C18
+
+//@ func (*MetaCDC).ReloadTask
+//@   props C18
+//@   requires e != nil && e.metaStoreFactory != nil
+// only what is handed to the logger matters here: the task helpers are treated as unknown calls
+//@   opaque pauseTaskWithReason getTaskUniqueIDFromInfo
+//@   loop 1 invariant true
